@@ -111,6 +111,7 @@ func (e *Enc) Run() (err error) {
 			e.sc.AssertNamed(t, "closure invariant "+c.Text)
 		}
 	}
+	// (environment step at entry is applied after the entry hooks, see below)
 	// lock discipline: a function is entered holding no mutex except those its contract names with held(...)
 	{
 		h0 := e.lookup(e.entry, "L$held", ArraySort(SInt, SInt))
@@ -147,6 +148,9 @@ func (e *Enc) Run() (err error) {
 				}
 			}
 		}
+	}
+	if err := e.envStep(nil); err != nil {
+		return err
 	}
 	order := e.rpo(fn.Blocks[0])
 	for _, b := range order {
@@ -193,11 +197,24 @@ func (e *Enc) assumeAllocated(v Term, t types.Type, alloc Term) {
 	switch t.Underlying().(type) {
 	case *types.Pointer, *types.Map, *types.Chan, *types.Signature:
 		if v.Sort == SInt {
-			e.sc.Assert(App(SBool, "<=", v, alloc))
+			e.sc.Assert(App(SBool, "<=", e.extentEnd(v, t), alloc))
 		}
 	case *types.Slice:
 		e.sc.Assert(App(SBool, "<=", App(SInt, "sref", v), alloc))
 	}
+}
+
+// extentEnd: a valid pointer to a module struct points to an object whose whole extent (its slots,
+// nested structs included) lies in the allocated region; for nil and other pointers just the pointer.
+func (e *Enc) extentEnd(v Term, t types.Type) Term {
+	if pt, ok := t.Underlying().(*types.Pointer); ok {
+		if _, isMod := e.tr.isModuleStruct(pt.Elem()); isMod {
+			if span := e.tr.layout(pt.Elem()).span; span > 1 {
+				return Ite(Eq(v, IntLit(0)), v, App(SInt, "+", v, IntLit(int64(span-1))))
+			}
+		}
+	}
+	return v
 }
 
 func (e *Enc) edge(from, to *ssa.BasicBlock) Term {
@@ -1048,7 +1065,7 @@ func (e *Enc) assumeAllocatedG(v Term, t types.Type) {
 	switch t.Underlying().(type) {
 	case *types.Pointer, *types.Map, *types.Chan, *types.Signature:
 		if v.Sort == SInt {
-			e.sc.Assert(Implies(e.curGuard, App(SBool, "<=", v, alloc)))
+			e.sc.Assert(Implies(e.curGuard, App(SBool, "<=", e.extentEnd(v, t), alloc)))
 		}
 	case *types.Slice:
 		e.sc.Assert(Implies(e.curGuard, App(SBool, "<=", App(SInt, "sref", v), alloc)))
